@@ -398,6 +398,71 @@ example : Old.init "ipv8.messaging.payload.PuncturePayload" [.atom (.bytes []), 
     ∧ Old.init "ipv8.messaging.payload.PuncturePayload" [.atom (.bytes []), .atom (.bytes []), .atom (.nat 65536)]
       = [.atom (.bytes []), .atom (.bytes []), .atom (.nat 0)] := by decide
 
+/-! ## method bodies TRANSLATED from the source (Gen.classCodes) — re-proved against the code on every run
+
+  `Gen.codeOld_*` / `Gen.codeOf` are the bodies of `to_pack_list`, `from_unpack_list` (+ `__init__`) as the translator read them
+  from the working tree; `Code.evalPack / evalUnpack` interpret them.  The theorems below say that this code IS the
+  hand-written model the field round-trip theorems above are proved about: a regression in one of these methods (a flag bit
+  moved, `[True, False][advice]`, `introduce_to[1:]`, another modulus, a swapped argument) makes them fail to build. -/
+
+/-- IntroductionRequestPayload.to_pack_list, as translated, is `Old.introReqPack` -/
+theorem generated_introduction_request_pack (d l w extra ident : Val) (adv sns : Atom) (ct : Bytes) :
+    Code.evalPack codeOld_IntroductionRequestPayload [d, l, w, .atom adv, .str ct, ident, extra, .atom sns]
+      = Old.introReqPack [d, l, w, .atom adv, .str ct, ident, extra, .atom sns] := rfl
+
+/-- IntroductionRequestPayload.from_unpack_list followed by `__init__`, as translated, is `Old.introReqUnpack` -/
+theorem generated_introduction_request_unpack (d l w extra : Val) (c0 c1 sns x3 x4 x5 x6 adv : Atom) (ident : Nat) :
+    Code.evalUnpack codeOld_IntroductionRequestPayload
+        [d, l, w, .atom c0, .atom c1, .atom sns, .atom x3, .atom x4, .atom x5, .atom x6, .atom adv, .atom (.nat ident), extra]
+      = Old.introReqUnpack [d, l, w, .tuple [c0, c1, sns, x3, x4, x5, x6, adv], .atom (.nat ident), extra] := rfl
+
+theorem generated_discovery_introduction_request_pack (d l w extra ident : Val) (key : Bytes) (adv : Atom) (ct : Bytes) :
+    Code.evalPack codeOld_DiscoveryIntroductionRequestPayload
+        [.atom (.bytes key), d, l, w, .atom adv, .str ct, ident, extra, .atom (.nat 1)]
+      = Old.discIntroReqPack [.atom (.bytes key), d, l, w, .atom adv, .str ct, ident, extra, .atom (.nat 1)] := rfl
+
+theorem generated_discovery_introduction_request_unpack (d l w extra : Val) (y : Atom) (key : Bytes)
+    (c0 c1 x2 x3 x4 x5 x6 adv : Atom) (ident : Nat) :
+    Code.evalUnpack codeOld_DiscoveryIntroductionRequestPayload
+        [.tuple [y, .bytes key], d, l, w, .atom c0, .atom c1, .atom x2, .atom x3, .atom x4, .atom x5, .atom x6, .atom adv,
+         .atom (.nat ident), extra]
+      = Old.discIntroReqUnpack [.tuple [y, .bytes key], d, l, w, .tuple [c0, c1, x2, x3, x4, x5, x6, adv], .atom (.nat ident), extra] :=
+  rfl
+
+theorem generated_introduction_response_pack (d l w li wi ident extra : Val) (ct : Bytes) (sns isns plr : Atom) :
+    Code.evalPack codeOld_IntroductionResponsePayload [d, l, w, li, wi, .str ct, ident, extra, .atom sns, .atom isns, .atom plr]
+      = Old.introRespPack [d, l, w, li, wi, .str ct, ident, extra, .atom sns, .atom isns, .atom plr] := rfl
+
+theorem generated_introduction_response_unpack (d l w li wi extra : Val) (c0 c1 x2 sns isns plr x6 x7 : Atom) (ident : Nat) :
+    Code.evalUnpack codeOld_IntroductionResponsePayload
+        [d, l, w, li, wi, .atom c0, .atom c1, .atom x2, .atom sns, .atom isns, .atom plr, .atom x6, .atom x7, .atom (.nat ident), extra]
+      = Old.introRespUnpack [d, l, w, li, wi, .tuple [c0, c1, x2, sns, isns, plr, x6, x7], .atom (.nat ident), extra] := rfl
+
+theorem generated_similarity_response_pack (ident : Val) (prefs tb : ValList) :
+    Code.evalPack codeOld_SimilarityResponsePayload [ident, .list prefs, .list tb]
+      = Old.simRespPack [ident, .list prefs, .list tb] := by
+  have hp : codeOld_SimilarityResponsePayload.pack
+      = [⟨"H", [.attr 0]⟩, ⟨"varlenHx20", [.joinBytes 1]⟩, ⟨"raw", [.joinTb 2]⟩] := rfl
+  rw [Code.evalPack, hp]
+  cases h1 : Old.joinBytes prefs.toList <;> cases h2 : Old.joinTb tb.toList <;>
+    simp [Code.evalEntry, Code.evalP, Old.simRespPack, h1, h2]
+
+theorem generated_similarity_response_unpack (ident : Nat) (prefs tb : Bytes) :
+    Code.evalUnpack codeOld_SimilarityResponsePayload [.atom (.nat ident), .atom (.bytes prefs), .atom (.bytes tb)]
+      = Old.simRespUnpack [.atom (.nat ident), .atom (.bytes prefs), .atom (.bytes tb)] := by
+  have h1 : codeOld_SimilarityResponsePayload.ctorArgs = [.param 0, .chunks 1 20, .splitTb 2] := rfl
+  have h2 : codeOld_SimilarityResponsePayload.init = [.modParam 0 65536, .param 1, .param 2] := rfl
+  have h3 : codeOld_SimilarityResponsePayload.unpackParams = 3 := rfl
+  have h4 : codeOld_SimilarityResponsePayload.ctorParams = 3 := rfl
+  cases hs : Old.splitTb tb <;>
+    simp [Code.evalUnpack, Code.evalU, Code.evalInit, Code.evalI, Old.simRespUnpack, h1, h2, h3, h4, hs]
+
+/-- every other shipped class — the 44 compiled VariablePayloads (source text generated by `vp_compile`, read back from the live
+    code objects) and the 11 plain hand-written ones: `to_pack_list` packs the attributes as they are, one entry per format in
+    `names` order (8 per `bits`), `from_unpack_list` passes the unpacked values straight to the constructor, `__init__` stores
+    them as they are — except `identifier % 65536` at the position `Old.identPos` says -/
+theorem generated_code_is_canonical : ∀ p ∈ payloads, codeIsCanonical p = true := by decide
+
 /-! ## serializer instances: an overlay encodes and decodes with ITS OWN packer table -/
 
 /-- for any set of overlays created in any order, each registering any packers under any names (fresh names, names also
